@@ -1,2 +1,4 @@
 -- Root of the `NemoVerif` library: models, lemmas, theorems (Generated/* is rewritten by the translator).
 import NemoVerif.Py.Val
+import NemoVerif.Theorems.C04
+import NemoVerif.Drive.C04
